@@ -1,4 +1,5 @@
 #include "hist.h"
+#include <cstring>
 #include <algorithm>
 #include <cmath>
 #include <sstream>
@@ -62,6 +63,8 @@ std::string Hist::freshName(const char* prefix, const std::vector<std::string>& 
         else if (style == 12) s << prefix << n << "\t\r\n\v\f"[rng.below(5)];   // ends in white space that is not a blank: part of the name (only blanks are padding)
         else { s << prefix; int k = rng.range(2, 14); for (int i = 0; i < k; ++i) s << alpha[rng.below(sizeof alpha - 1)]; }   // any letter in either case, digits, punctuation
         std::string c = s.str(); bool clash = false;
+        // (only where a check asks for it, --blanknames 1: C14) a group name that ENDS in blanks; the blanks are part of the name
+        if (o.geti("blanknames", 0) && !strcmp(prefix, "Grp") && rng.chance(20)) c += std::string((size_t)rng.range(1, 3), ' ');
         for (size_t i = 0; i < taken.size(); ++i) if (upperS(taken[i]) == upperS(c)) { clash = true; break; }
         if (!clash) return c;
     }
